@@ -235,8 +235,32 @@ static void case_huge(ByteSource& in, CaseInfo& ci) {
   Int Gg = int_from_mpz(g2); certify("mpz_gcdext(huge)", A, B, Gg, int_from_mpz(s), int_from_mpz(t)); REQUIRE(ref::tmod(Gg, G).is_zero(), "mpz_gcdext(huge): g is not a multiple of the planted common factor");
   if (in.flag()) mpz_gcd(g, a, b); else mpz_gcd(g, b, a); REQUIRE_WF(g, "mpz_gcd"); REQUIRE(int_from_mpz(g) == Gg, "mpz_gcd(huge, n=%zu): differs from the gcd certified by cofactors", n);
 }
+// class aimed at the size bookkeeping of the hgcd_reduce regime (n >= HGCD_REDUCE_THRESHOLD: hgcd_appr on the high part, then hgcd_matrix_apply): sizes a little
+// above 3 * HGCD_REDUCE_THRESHOLD of THIS build's table, one big quotient of about n/20 limbs, and a reduced operand that comes out one limb SHORTER than the
+// unchanged one (a = e(y+1) just above B^t, b - k a = e y just below it).  gcd(a, b) = e gcd(y+1, y) = e by construction, whatever y is, so the library may
+// be used to build the operands; presented as (b B^2 + a, b), (b, a) and (a, b).
+static void case_straddle(ByteSource& in, CaseInfo& ci) {
+  size_t T = HGCD_REDUCE_THRESHOLD; size_t N = 3 * T + T * (size_t)in.range(10, 70) / 100; if (N < 40) N = 40 + (size_t)in.range(0, 40); if (N > 45000) return;
+  size_t J1 = std::max<size_t>(1, N / (size_t)in.range(16, 24)), EN = N * (size_t)in.range(86, 93) / 100, t = N - J1 - 1; if (EN + 2 >= t) EN = t - 2;
+  Z e, y, k, a, b, c, U, G, Bt; Limbs el = limbs_nz(in, 2), kl = limbs_nz(in, 2);
+  mpz_set_ui(Bt.z, 1); mpz_mul_2exp(Bt.z, Bt.z, 64 * t); mpz_sub_ui(Bt.z, Bt.z, 1);
+  // e: EN limbs, odd, top bit set, pseudo-random middle derived from two generated limbs (a long LCG-free fill: powers of a generated odd value)
+  mpz_set_ui(e.z, el[0] | 1); mpz_mul_2exp(e.z, e.z, 64); mpz_add_ui(e.z, e.z, el[1] | 1); mpz_pow_ui(e.z, e.z, (unsigned long)(EN / 2 + 1)); mpz_tdiv_r_2exp(e.z, e.z, 64 * EN); mpz_setbit(e.z, 64 * EN - 1); mpz_setbit(e.z, 0);
+  for (int tries = 0; tries < 40; tries++) { mpz_fdiv_q(y.z, Bt.z, e.z); if (mpz_even_p(y.z)) break; mpz_add_ui(e.z, e.z, 2 * (el[1] % 1000003) + 2); }
+  if (!mpz_even_p(y.z)) return;
+  mpz_mul(c.z, e.z, y.z); mpz_add(a.z, c.z, e.z);
+  mpz_set_ui(k.z, kl[0] | 1); mpz_mul_2exp(k.z, k.z, 64); mpz_add_ui(k.z, k.z, kl[1] | 1); mpz_pow_ui(k.z, k.z, (unsigned long)(J1 / 2 + 1)); mpz_tdiv_r_2exp(k.z, k.z, 64 * J1); mpz_setbit(k.z, 64 * J1 - 1); mpz_setbit(k.z, 0);
+  mpz_mul(b.z, k.z, a.z); mpz_add(b.z, b.z, c.z); mpz_mul_2exp(U.z, b.z, 128); mpz_add(U.z, U.z, a.z);
+  ci.label("hgcd_reduce_straddle"); ci.nontrivial = true; ci.d("straddle N=%zu J1=%zu EN=%zu: a=%zu limbs, b=%zu, b-k*a=%zu, gcd=%zu ", N, J1, EN, mpz_size(a.z), mpz_size(b.z), mpz_size(c.z), mpz_size(e.z));
+  unsigned form = in.pick({3, 1, 1});
+  if (form == 0) mpz_gcd(G.z, U.z, b.z); else if (form == 1) mpz_gcd(G.z, b.z, a.z); else mpz_gcd(G.z, a.z, b.z);
+  REQUIRE_WF(G.z, "mpz_gcd"); REQUIRE(mpz_cmp(G.z, e.z) == 0, "mpz_gcd(straddle form %u, N=%zu J1=%zu EN=%zu): returned a %zu-limb value, the gcd by construction (e) has %zu limbs and differs", form, N, J1, EN, mpz_size(G.z), mpz_size(e.z));
+  if (in.chance(64)) { Z s, tt, g2; mpz_gcdext(g2.z, s.z, tt.z, b.z, a.z); REQUIRE(mpz_cmp(g2.z, e.z) == 0, "mpz_gcdext(straddle N=%zu): g differs from the gcd by construction", N);
+    Z chk, tmp; mpz_mul(chk.z, s.z, b.z); mpz_mul(tmp.z, tt.z, a.z); mpz_add(chk.z, chk.z, tmp.z); REQUIRE(mpz_cmp(chk.z, g2.z) == 0, "mpz_gcdext(straddle N=%zu): s*b + t*a != g", N); }
+}
 static void check(ByteSource& in, CaseInfo& ci) {
-  if (in.scale >= 90 && (in.u8() ^ 0xA5u) < 4 && in.chance(128)) { case_huge(in, ci); return; }   // ~1 in 128 of the top size classes; never for an exhausted (all-zero) stream
+  if (in.scale >= 90 && (in.u8() ^ 0xA5u) < 4 && in.chance(128)) { if (in.pick({2, 1}) == 0) case_huge(in, ci); else case_straddle(in, ci); return; }
+  if (3 * (size_t)HGCD_REDUCE_THRESHOLD <= 4000 && in.scale >= 40 && in.chance(3 * (size_t)HGCD_REDUCE_THRESHOLD <= 400 ? 60 : 8)) { case_straddle(in, ci); return; }   /* tables with a low crossover: the class is cheap, make it common */   // ~1 in 128 of the top size classes; never for an exhausted (all-zero) stream
   switch (in.pick({8, 2, 3, 5, 6})) { case 0: case_mpz_gcd(in, ci); break; case 1: case_ui(in, ci); break; case 2: case_invert(in, ci); break; case 3: case_mpn(in, ci); break; default: case_kron(in, ci); break; }
 }
 namespace eng {
